@@ -240,9 +240,7 @@ Print Assumptions C07_nul_truncates_src.
 Theorem C07_streambuffer_src : forall (s : stream) (k : nat) (text : str),
   peek_src s k = peek s k /\ prefix_src s k = prefix s k /\ forward_src s k = forward s k /\
   get_position_src s = (s_idx s, s_line s, s_col s) /\ new_stream_src text = new_stream text.
-Proof.
-  intros s k text. repeat split; [apply peek_src_eq | apply forward_src_eq].
-Qed.
+Proof. exact streambuffer_src. Qed.
 Print Assumptions C07_streambuffer_src.
 
 (* C07_mark_positions for the translated class *)
@@ -258,7 +256,7 @@ Print Assumptions C07_mark_positions_src.
 Theorem C07_clone_positions_src : forall text lo co p,
   clone_src (error_mark text 0 0 p) lo co = error_mark text lo co p /\
   reraise_mark_src (error_mark text 0 0 p) lo co = error_mark text lo co p.
-Proof. intros. split; [apply clone_src_positions | apply reraise_mark_src_eq]. Qed.
+Proof. exact clone_positions_src. Qed.
 Print Assumptions C07_clone_positions_src.
 
 (* ---- non-vacuity ---- *)
